@@ -17,6 +17,16 @@ ASSUMPTIONS = [
 TRIVIAL_TAGS = ["error"]
 
 
+def pregen():
+    """regenerate coq/theories/Gen/CatArms.v from the current Rust source (translators/cat_arms.py): the offset-chain obligations
+    of Props/C11.v are stated over that table"""
+    import os, sys
+    from vlib import core
+    sys.path.insert(0, os.path.join(core.ROOT, "translators"))
+    import armlib
+    return armlib.pregen(PROP, [("cat_arms", "theories/Proofs/CatArmsP.vo")])
+
+
 def compositions(n, maxparts=4):
     res = []
     def go(rem, acc):
